@@ -1,7 +1,7 @@
 """In-harness toolkit: counters, failure details, repo-origin assertion."""
 import sys
 
-COUNTS = {"body": 0, "reach": 0}
+COUNTS = {"body": 0, "reach": 0, "dropped": 0}
 DETAIL = []
 TRACED = []   # failure descriptions seen while tracing (diagnostics for non-reproducing counterexamples)
 
@@ -57,3 +57,11 @@ def real(x):
         return x
     from crosshair.core import deep_realize
     return deep_realize(x)
+
+
+def proxy_intolerance(exc):
+    """a TypeError such as '__repr__ returned non-string (type LazyIntSymbolicStr)' means a native repr()/str()
+    met a symbolic value (typically while the harness formatted a failure message): CrossHair silently drops
+    such a path, so count it -- the runner turns a non-zero count into a harness error"""
+    if "returned non-string" in str(exc):
+        COUNTS["dropped"] += 1
